@@ -1809,10 +1809,103 @@ def replay_var_empty(a):
             "note": "; ".join(t["clause"] for t in tried if "problem" in t) or None}
 
 
+def flip_queryin(a):
+    """operator-level `not` on a failed query-in comparison (`q not in [..]`, `q != list`): which side the new difference
+    is taken from, and when the negated outcome is Success"""
+    VER = enum_variants(a.src, "rules/eval/operators.rs", "ValueEvalResult")
+    CR = enum_variants(a.src, "rules/eval/operators.rs", "ComparisonResult")
+    CMP = enum_variants(a.src, "rules/eval/operators.rs", "Compare")
+    CMPO = enum_variants(a.src, "rules/values.rs", "CmpOperator")
+    QI = struct_fields(a.src, "rules/eval/operators.rs", "QueryIn")
+    h = {}
+
+    def prep(ex):
+        e = ex.opq()
+        ex.proj[("disc", e[1])] = str(VER.index("ComparisonResult"))
+        cr = payload(ex, e, "ComparisonResult")
+        ex.proj[("disc", cr[1])] = str(CR.index("Fail"))
+        c = payload(ex, cr, "Fail")
+        ex.proj[("disc", c[1])] = str(CMP.index("QueryIn"))
+        h.update(c=c)
+        return {"_2": e}
+    saved = a.enums
+    a.enums = dict(a.enums, CmpOperator=CMPO)
+    try:
+        ex = a.exec(OPS_IMPL + r"::\{closure#0\}",
+                    {"reverse_diff": lambda ex, av: ex.opq(), "is_empty": mirexec.m_is_empty, "len": lambda ex, av: ("int", ex.len_of(av[0])),
+                     "clone": mirexec.m_identity, "deref": mirexec.m_identity},
+                    log=("new",), unroll=1, max_paths=2000,
+                    first_arg_re=r"_1: &mut \{closure@[^}]*\}, _2: (?:operators::)?ValueEvalResult", prep=prep)
+    finally:
+        a.enums = saved
+    a.fns.append("rules::eval::operators::<(CmpOperator, bool) as Comparator>::compare::{closure#0} (failed query-in arm)")
+    qin = payload(ex, h["c"], "QueryIn")
+    diff, ql, qr = (field(ex, qin, QI.index(n), "Vec") for n in ("diff", "lhs", "rhs"))
+    bad, n = [], 0
+    for p in ex.paths:
+        r = p.ret
+        if p.outcome != "return" or not (r and r[0] == "variant" and r[2] == "ComparisonResult" and r[3] and r[3][0][0] == "variant"):
+            bad.append(pc_term(p.pc))
+            continue
+        outcome = r[3][0][2]
+        rd = calls(p, "reverse_diff")
+        news = [e for e in calls(p, "new") if len(e[2]) == 3]
+        lens = calls(p, "len")
+        probs = []
+        if len(rd) != 1 or not same_v(rd[0][2][0], diff) or not (same_v(rd[0][2][1], ql) or same_v(rd[0][2][1], qr)):
+            probs.append("the new difference is not computed from the old difference and one of the two operand lists")
+        if not (len(news) == 1 and rd and same_v(news[0][2][0], rd[0][3]) and same_v(news[0][2][1], ql) and same_v(news[0][2][2], qr)):
+            probs.append("the result is not QueryIn(new difference, same lhs, same rhs)")
+        if probs:
+            bad.append(pc_term(p.pc))
+            continue
+        n += 1
+        empty = f"(= {ex.len_of(rd[0][3])} 0)"
+        want = "Success" if False else None
+        good = f"(= {empty} {'true' if outcome == 'Success' else 'false'})"
+        bad.append(f"(and {pc_term(p.pc)} (not {good}))")
+    c = a.discharge("operators::negated-compare/query-in-difference", ex, bad,
+                    f"operator-level `not` on a FAILED query-in outcome ({n} paths): the new difference is reverse_diff(old difference, one of the two "
+                    "operand lists), the negated outcome is Success iff that new difference is empty, and lhs / rhs are carried over unchanged")
+    if c:
+        c["replay"] = replay_query_not_in(a)
+        if not c["replay"].get("reproduced"):
+            c["replay"] = replay_list_not_in(a)
+        c["reproduced"] = c["replay"].get("reproduced", False)
+        a.candidates.append(c)
+    # reverse_diff's filter: keeps exactly the elements that are NOT in the old difference
+    ex2 = a.exec(r"(?:(?:rules::eval::)?operators::)?reverse_diff::\{closure#0\}", {"contains": lambda ex, av: ex.havoc("bool"), "deref": mirexec.m_identity},
+                 log=("contains",), unroll=1, max_paths=50)
+    bad2 = []
+    for p in ex2.paths:
+        cs = calls(p, "contains")
+        r = p.ret
+        ok = p.outcome == "return" and len(cs) == 1 and r is not None and r[0] == "bool"
+        bad2.append(f"(and {pc_term(p.pc)} (not (= {r[1]} (not {cs[0][3][1]}))))" if ok else pc_term(p.pc))
+    c2 = a.discharge("operators::reverse_diff/filter", ex2, bad2, "reverse_diff keeps an element iff the old difference does NOT contain it", witness=False)
+    if c2:
+        c2["replay"] = replay_query_not_in(a)
+        c2["reproduced"] = c2["replay"].get("reproduced", False)
+        a.candidates.append(c2)
+
+
+def replay_query_not_in(a):
+    exe = a.cli()
+    if not exe:
+        return {"reproduced": False, "note": "native build failed"}
+    data = '{"Q": [ {"v": 1}, {"v": 2}, {"v": 3} ],\n "one": [ {"v": 1} ], "all": [1, 2, 3, 4], "part": [1, 9], "none": [8, 9]}\n'
+    cases = [("Q[*].v in [1, 2, 3, 4]", "PASS"), ("Q[*].v in [1, 2]", "FAIL"), ("Q[*].v not in [8, 9]", "PASS"), ("Q[*].v not in [1, 9]", "FAIL"),
+             ("Q[*].v not in [1, 2, 3]", "FAIL"), ("not Q[*].v in [8, 9]", "PASS"), ("not Q[*].v in [1, 9]", "FAIL"), ("some Q[*].v not in [1, 2]", "PASS"),
+             ("some Q[*].v not in [1, 2, 3]", "FAIL"), ("one[*].v not in [1]", "FAIL"), ("one[*].v not in [2]", "PASS"),
+             ("Q[*].v in all[*]", "PASS"), ("Q[*].v in part[*]", "FAIL"), ("Q[*].v not in none[*]", "PASS"), ("Q[*].v not in part[*]", "FAIL"),
+             ("Q[*].v not in all[*]", "FAIL"), ("not Q[*].v in none[*]", "PASS"), ("not Q[*].v in part[*]", "FAIL")]
+    return a.replay_cases(exe, data, cases)
+
+
 SITES = {
-    "C01": [guard_block, type_block, binary_operation, operator_dispatch, match_value, common_operator, contained_in, eq_operation, in_operation, list_map_equality, flip_listin, unary_empty_on_expr],
+    "C01": [guard_block, type_block, binary_operation, operator_dispatch, match_value, common_operator, contained_in, eq_operation, in_operation, list_map_equality, flip_listin, unary_empty_on_expr, flip_queryin],
     "C02": [guard_block, type_block, record_tracker, unary_empty_on_expr],
-    "C03": [flip_closure, negated_compare_wrapper, parser_clause_wiring, flip_listin, unary_empty_on_expr],
-    "C13": [flip_closure, operator_dispatch, binary_operation, match_value, common_operator, contained_in, eq_operation, in_operation, list_map_equality, flip_listin],
+    "C03": [flip_closure, negated_compare_wrapper, parser_clause_wiring, flip_listin, unary_empty_on_expr, flip_queryin],
+    "C13": [flip_closure, operator_dispatch, binary_operation, match_value, common_operator, contained_in, eq_operation, in_operation, list_map_equality, flip_listin, flip_queryin],
     "C18": [function_dispatch, elementwise, join_sequence],
 }
